@@ -74,6 +74,12 @@ func c18Value() string {
 		return []string{"서울,갬성,부산", "КАЗАНЬ,ТВЕРЬ", "6600,Ĭ6601,6602", "naïve café", "値=テスト", "a,Ь,b", "12,갬,34",
 			"Ĭ", "über:straße"}[simrt.Choose(9)]
 	}
+	if simrt.Chance(1, 10) {
+		// numbers at and beyond the edges of the getters' result types, and spellings a lenient
+		// parser might accept
+		return []string{"2147483647", "2147483648", "-2147483648", "-2147483649", "9223372036854775807", "9223372036854775808",
+			"+5", "0x10", "1e3", "007", "1_000", "3.4028236e38", "1e400", "NaN", "-0"}[simrt.Choose(15)]
+	}
 	switch simrt.Choose(14) {
 	case 0:
 		return strconv.Itoa(simrt.Choose(100000))
